@@ -149,7 +149,11 @@ SPECS["C01"] = dict(
                "/ 4 (thorough) with every pair of sub-ranges for the three algorithms, a third of them also through an "
                "offset lookup; every pair of ternary sequences up to length 4 / 5 modulo relabelling; structured random "
                "pairs (near-identical, block moves, periodic, low-entropy, unique-rich, repeats next to edits, "
-               "unrelated) up to length 40 / 120 with random sub-ranges and offset lookups; Myers/Patience up to 300",
+               "unrelated) up to length 40 / 120 with random sub-ranges and offset lookups; Myers/Patience up to 300.  The entry "
+               "point is picked from a hash of the case: algorithms::diff_deadline, algorithms::diff, the algorithm's own "
+               "module functions with and without deadline parameter.  The small world also runs against a debug build of "
+               "the crate, and every binary sequence up to length 4 is diffed against itself (same object passed twice) "
+               "over all pairs of sub-ranges",
 )
 
 
@@ -957,7 +961,9 @@ SPECS["C04"] = dict(
     run=run_C04,
     generators="textdiff component: random line texts (small line alphabets, LF/CRLF/CR, missing final newline) and "
                "their edits, random symbol strings incl. multi-byte, and in byte mode invalid UTF-8; 5 tokenizers x 3 "
-               "algorithms x {str,[u8]}; unicode words / graphemes via the replayed-oracle protocol",
+               "algorithms x {str,[u8]}; unicode words / graphemes via the replayed-oracle protocol; every diff is also built "
+               "through String / Cow / Vec<u8> inputs and (default configuration) the TextDiff::from_* constructors; a "
+               "sample runs against a debug build of the crate",
 )
 
 
@@ -1173,7 +1179,7 @@ SPECS["C05"] = dict(
     generators="udiff component: random line texts over small line alphabets (LF/CRLF/CR, missing final newline, empty) "
                "and their edits, in byte mode also invalid UTF-8; algorithm, radius in {0,1,2,3,5}, header on/off, "
                "hint on/off; rendered through Display, UnifiedDiff::to_writer, per-hunk to_writer and "
-               "udiff::unified_diff; lines of 2048, 8192, 8193 (thorough: 1023..20000) bytes inside hunks.  The rendered text is parsed (strictly) and applied by the extracted check_patch",
+               "udiff::unified_diff; lines of 2048, 8192, 8193 (thorough: 1023..20000) bytes inside hunks.  Every UnifiedDiff value is first rendered, iterated and written with other settings and then configured as asked.  The rendered text is parsed (strictly) and applied by the extracted check_patch",
 )
 
 
@@ -1272,7 +1278,7 @@ SPECS["C17"] = dict(
                                "remapper_same", "remap_exact_substrings"},
     run=run_C17,
     generators="remap component: utils::diff_chars/words/unicode_words/graphemes/lines and an explicit "
-               "TextDiffRemapper over the same diff, random texts incl. empty and multi-byte, str and bytes (invalid "
+               "TextDiffRemapper over the same diff (from_text_diff, new, slice_old/slice_new, and over separate equal copies of the texts), random texts incl. empty and multi-byte, str and bytes (invalid "
                "UTF-8 in byte mode), 3 algorithms; slices component: utils::diff_slices on structured pairs",
 )
 
@@ -1349,7 +1355,7 @@ SPECS["C20"] = dict(
     generators="repeat component: capture_diff of every binary pair up to 3 and random structured pairs with "
                "sub-ranges, and tied block swaps of 700-1600 unique items (checker only, no model run), executed 12-20 times in 4 threads (fresh RandomState per HashMap) under 4 relabellings "
                "(identity, order preserving, order reversing, hash scrambling), all results identical to each other and "
-               "to the model; textdiff component: str vs the same bytes as [u8] for lines/words/chars",
+               "to the model; item types with coarse / constant Hash, a new-side item type that differs from the old side's and hashes differently, capture_diff_slices / utils::diff_slices / algorithms::diff_slices, self-diffs with the same object passed twice; textdiff component: str vs the same bytes as [u8] for lines/words/chars",
 )
 
 
@@ -1496,7 +1502,7 @@ SPECS["C18"] = dict(
     run=run_C18,
     generators="close component (get_close_matches): words and candidate lists over a 3-letter alphabet (all words up to "
                "length 3, duplicates, empty strings), mixed-width characters (1/2/3/4-byte) where byte length differs "
-               "from char count, near misses of a longer word; n in {0,1,3,100}; cutoffs 0, 1, 0.5, 0.6 and every ratio "
+               "from char count, near misses of a longer word, prefixes and extensions of the word (passed as sub-slices of one buffer); n in {0,1,3,100,2^32,2^63,usize::MAX}; cutoffs 0, 1, 0.5, 0.6 and every ratio "
                "value that occurs exactly, its f32 successor and predecessor",
 )
 
